@@ -21,6 +21,8 @@ TIE = {'core.get_n_best / Plurality and every evaluator ending in it; HighestAve
            'models shared with C09 / C01 / C02 / C03 (correspondence there); shape theorems here',
        'Copeland / Schulze / MinimaxCondorcet / RankedPairs / KemenyYoung; ScoreVoting / MajorityJudgment / STAR; ProportionalApproval / SequentialProportionalApproval; PreferenceAddition':
            'models shared with C05 / C12 / C17 (correspondence there); shape theorems here (Proofs/Shape2_proofs.v), and their outputs are judged by the extracted checker as well',
+       'sequential.Baldwin (+ Baldwin._compute_negative_scores = the negated RankedToPositionalVotes.convert)': 'Model/Elimination.v, wire units 111 / 112: correspondence stream baldwin (extracted model vs the implementation: result lists in order, score dictionaries in order and value; candidates with equal scores compared as a set where a shared rank makes the order a frozenset iteration order); shape theorems C08_shape_baldwin / C08_shape_positional',
+       'sequential.Benham / TidemanAlternative; threshold selectors, bracketers, open lists, QuotaSelector; CondorcetWinner / SmithSet / SchwartzSet': 'models shared with C05 / C16 (correspondence there); shape theorems here (Proofs/Shape3_proofs.v, ShapeElim_proofs.v, TidemanIndex_proofs.v)',
        'every other evaluator of harness/evalreg.py': 'outputs judged by the extracted verified checker sel_shape_ok (selections) / declarative clauses (distributions)'}
 RULE = ('sweep: for each of the 65 evaluator configurations (63 of harness/evalreg.py + AllocatedScoreDistributor hare / droop; simple / approval / ranked incl. shared ranks / score / pairwise votes) random profiles '
         'with positive total weight, every n in 1..#candidates (sampled); selection results are encoded and judged by the extracted checker '
@@ -32,9 +34,11 @@ RULE = ('sweep: for each of the 65 evaluator configurations (63 of harness/evalr
         'once for r >= 2 seats with more than r members: allocated score; fewer than n distinct plain candidates: Bucklin / Oklahoma / STAR); an '
         'exception other than VotingSystemError / NotImplementedError is a violation for the families the property names (plurality, highest '
         'averages, largest remainder, transferable vote, Schulze, Copeland, minimax, positional, approval, score). model-shape: the checker on the '
-        'extracted get_n_best model (sanity of the wire encoding). non-trivial = result contains a tie or a refusal; distinct by case hash')
-PARTIAL = ['shape of evaluators without a Coq model (Condorcet family beyond Copeland, PAV/SPAV, score family, Bucklin, Benham, Tideman, Baldwin, '
-           'thresholds) is decided per explored case by the verified checker, not proved for all inputs',
+        'extracted get_n_best model (sanity of the wire encoding). baldwin: differential of the extracted Model/Elimination.v against sequential.Baldwin (six rank scorers; 1..6 candidates, bullet / truncated ballots, shared ranks, zero weights and weights up to 10^20, symmetrised profiles, tied losers ranked together at the bottom, one all-inclusive shared rank, an empty shared rank (ValueError on both sides), n in {0, 1, k-1, k, k+1, random}; 12 % of the cases compare the negative-score dictionary itself) with the declarative clause of C08_shape_baldwin evaluated on the implementation answer (well-formed profile, 1 <= n <= candidates: exactly n entries in shape, never an exception). sweeps: an exception other than VotingSystemError / NotImplementedError is also a violation for Baldwin, for Benham (one seat) and TidemanAlternative on a profile with two candidates (theorems C08_shape_baldwin / benham / tideman_outcomes), except the TypeError of TidemanAlternative for n >= 2 (known finding C08-tideman-multiseat). non-trivial = result contains a tie or a refusal; distinct by case hash')
+PARTIAL = ['no shape theorem (decided per explored case by the verified checker): approval converters in front of plurality, the first-preference composite, '
+           'allocated score (shape clause refuted: C08_shape_allocated_score_refuted); Benham / Tideman / Baldwin / positional theorems are over well-formed profiles '
+           '(no candidate twice on a ballot, no negative weight resp. no empty shared rank) with a pairwise contest; TidemanAlternative fills one seat only '
+           '(C08_shape_tideman_multiseat_refuted); the library has no Coombs class',
            'wrapper classes that need components (ByConstituency, Conditioned, TieBreaking, MultistageDistributor, PartyListEvaluator, ...) are swept by C14, '
            'BiproportionalEvaluator by C07, open-list evaluators by C16, seeded random selectors by C18']
 TRUSTED = []
